@@ -161,17 +161,27 @@ def flags_for(letters):
 
 
 def build_core(layout, fresh, places, n_locs, track=True, stationary=(), geom="hex", symmetry="full", sfp_side=4,
-               placeholder=lambda aid: -(1000 + aid), pooled=None):
+               placeholder=lambda aid: -(1000 + aid), pooled=None, regen=True, db_file=None):
     """layout: {asm id: letters} initial assemblies (numbered 0.. in id order, as blueprints do);
     pooled: {asm id: letters} assemblies pre-loaded into the spent-fuel pool (numbered after the core ones, the way a
     blueprint-defined pool is loaded), whatever the tracking setting;
     fresh: {asm id: letters} assemblies not yet charged (placeholder, negative assembly numbers);
-    places: {asm id: 1-based location index}; n_locs: number of core locations offered to the operations."""
+    places: {asm id: 1-based location index}; n_locs: number of core locations offered to the operations.
+    regen: run Core.regenAssemblyLists() once the pool is loaded (what restoring/distributing a reactor does; a
+    factory-built or database-loaded reactor does NOT know its pre-loaded pool by name -- pass False to see that);
+    db_file: path of an h5 file: the reactor is written to it with armi's Database (once; the file is reused) and the
+    world that is returned holds the reactor LOADED from it (Database.load): every restored assembly carries the
+    lastLocationLabel "database".  Fresh assemblies are not part of a reactor and are built as usual."""
     armi_ready()
+    import os
+
     from armi.physics.fuelCycle.fuelHandlers import FuelHandler
     from armi.reactor import blueprints, geometry, grids, reactors
     from armi.reactor.spentFuelPool import SpentFuelPool
 
+    if db_file is not None and os.path.exists(db_file):
+        return _load_world(db_file, layout, pooled or {}, fresh, places, n_locs, track, stationary, geom, symmetry,
+                           placeholder, regen, sfp_side)
     w = World()
     bp = blueprints.Blueprints()
     r = reactors.Reactor("gen", bp)
@@ -192,6 +202,11 @@ def build_core(layout, fresh, places, n_locs, track=True, stationary=(), geom="h
             core.spatialGrid.symmetry = str(geometry.SymmetryType(geometry.DomainType.FULL_CORE, geometry.BoundaryType.NO_SYMMETRY))
             locs = hex_locations(n_locs)
     core.spatialGrid.armiObject = core
+    if db_file is not None:
+        # Database.load sorts the reactor (sortReactor setting): the loaded core lists its assemblies in armi's
+        # location order, whatever order they were added in.  Location INDICES are abstract, so the cells are handed
+        # out such that assembly k (k-th to be added, number k-1) is also the k-th of the loaded, sorted core.
+        locs = _db_cells(core, locs, [places[aid] for aid in sorted(layout)], n_locs)
     core._trackAssems = bool(track)
     core.stationaryBlockFlagsList = flags_for(stationary)
 
@@ -223,9 +238,27 @@ def build_core(layout, fresh, places, n_locs, track=True, stationary=(), geom="h
         for k, b in enumerate(a, start=1):
             w.blk[(aid, k)] = b
         sfp.add(a)  # no locator: the pool's own col/row filling
-    if pooled:
-        # a loaded reactor knows its pooled assemblies and their blocks by name (Core.regenAssemblyLists, run when a
-        # reactor is restored/distributed; observed on armi's own test reactor with its blueprint-defined pool)
+    if db_file is not None:
+        from armi.bookkeeping.db.database import Database
+
+        r.p.cycle, r.p.timeNode = 0, 0
+        for a in w.asm.values():
+            a.p.numMoves = 0  # the state a case starts from: nobody has moved yet
+        db = Database(db_file, "w")
+        db.open()
+        try:
+            db.writeToDB(r)
+        finally:
+            db.close()
+        import json
+
+        with open(db_file + ".json", "w") as f:
+            json.dump({"locs": [list(x) for x in locs]}, f)
+        return _load_world(db_file, layout, pooled or {}, fresh, places, n_locs, track, stationary, geom, symmetry,
+                           placeholder, regen, sfp_side)
+    if pooled and regen:
+        # a restored reactor knows its pooled assemblies and their blocks by name (Core.regenAssemblyLists, run when a
+        # reactor is unpickled/distributed; observed on armi's own cached test reactor with its blueprint-defined pool)
         core.regenAssemblyLists()
     for aid in sorted(fresh):
         a = make_assembly(aid, fresh[aid], geom, assem_num=placeholder(aid))
@@ -239,6 +272,85 @@ def build_core(layout, fresh, places, n_locs, track=True, stationary=(), geom="h
     core.p.maxAssemNum = len(layout) - 1 if layout else 0
     w.fh = FuelHandler(OperatorStub(r))
     w.sfp_side = sfp_side
+    w.fingerprint0 = {key: block_fingerprint(b) for key, b in w.blk.items()}
+    return w
+
+
+_CS = {}
+
+
+def _settings(track, stationary):
+    key = (bool(track), tuple(stationary))
+    if key not in _CS:
+        from armi import settings
+
+        names = {"G": "GRID_PLATE", "F": "FUEL", "P": "PLENUM", "S": "AXIAL SHIELD"}
+        _CS[key] = settings.Settings().modified(newSettings={
+            "trackAssems": bool(track), "stationaryBlockFlags": [names[x] for x in stationary],
+            "detailedAxialExpansion": True})
+    return _CS[key]
+
+
+def _db_cells(core, locs, used, n_locs):
+    """a numbering of the first n_locs cells such that the cells at indices used[0], used[1], ... come in armi's own
+    sort order of assemblies"""
+    # ArmiObject.__lt__: objects of one grid compare by their complete indices in (k, j, i) order
+    cells = sorted((locs[l - 1] for l in used), key=lambda c: (c[1], c[0]))
+    rest = [c for c in locs if c not in cells]
+    out = [None] * n_locs
+    for l, c in zip(used, cells):
+        out[l - 1] = c
+    for n in range(n_locs):
+        if out[n] is None:
+            out[n] = rest.pop(0)
+    return out
+
+
+def _load_world(db_file, layout, pooled, fresh, places, n_locs, track, stationary, geom, symmetry, placeholder, regen,
+                sfp_side):
+    """the world around a reactor loaded from db_file with armi's own Database.load"""
+    import json
+
+    from armi.bookkeeping.db.database import Database
+    from armi.physics.fuelCycle.fuelHandlers import FuelHandler
+    from armi.reactor import blueprints
+
+    db = Database(db_file, "r")
+    db.open()
+    try:
+        r = db.load(0, 0, cs=_settings(track, stationary), bp=blueprints.Blueprints())
+    finally:
+        db.close()
+    w = World()
+    w.r, w.core, w.sfp = r, r.core, r.excore["sfp"]
+    w.core._trackAssems = bool(track)
+    w.core.stationaryBlockFlagsList = flags_for(stationary)
+    with open(db_file + ".json") as f:
+        locs = [tuple(x) for x in json.load(f)["locs"]]
+    w.locs = locs
+    w.loc_index = {ij: n + 1 for n, ij in enumerate(locs)}
+    w.asm, w.blk, w.letters = {}, {}, {}
+    bynum = {int(a.p.assemNum): a for a in list(w.core) + list(w.sfp)}
+    for n, aid in enumerate(sorted(layout) + sorted(pooled)):  # numbered in this order when they were built
+        a = bynum[n]
+        w.asm[aid] = a
+        w.letters[aid] = (layout.get(aid) or pooled.get(aid))
+        for k, b in enumerate(a, start=1):
+            w.blk[(aid, k)] = b
+    if pooled and regen:
+        w.core.regenAssemblyLists()
+    if w.sfp.numColumns is None:
+        w.sfp._updateNumberOfColumns()  # the pool computes this lazily at its first add; the projection needs it
+    for aid in sorted(fresh):
+        a = make_assembly(aid, fresh[aid], geom, assem_num=placeholder(aid))
+        a.p.numMoves = 0
+        w.asm[aid] = a
+        w.letters[aid] = fresh[aid]
+        for k, b in enumerate(a, start=1):
+            w.blk[(aid, k)] = b
+    w.fh = FuelHandler(OperatorStub(r))
+    w.sfp_side = sfp_side
+    w.from_db = True
     w.fingerprint0 = {key: block_fingerprint(b) for key, b in w.blk.items()}
     return w
 
